@@ -70,8 +70,11 @@ def rule_prologue_trailer(check):
     check.floor(R, "reads of the prologue statements (Config.file_prefix_code)", len(reads), 1)
     for i, (g, n) in enumerate(reads):
         atoms = gate.atoms_at(g, n)
-        ok = gate.has_eq_gate(atoms, ".transform_status.status", "Status::Modified") or gate.has_variant_gate(atoms, "Status::Modified", ".status")
+        ok, extra = gate.modified_gate(prog, g, atoms)
         v = [a[2].split("::")[-1] for a in atoms if a[0] == "variant" and a[3] is True and isinstance(a[2], str) and "Program::" in a[2]]
+        if ok and extra:
+            check.bad(R, "%s/prologue/%s" % (R, v[0] if v else g.name), hir.loc(n), "the prologue is inserted only if %s: a Modified file can come back without its prologue" % "; ".join(extra))
+            continue
         check.expect(ok and g is f, R, "%s/prologue/%s" % (R, v[0] if v else g.name), hir.loc(n), "prologue statements are read (for insertion) under status == Modified", "the prologue statements are used in %s without a status == Modified guard" % g.name)
     pj = prog.fn("rewriter::print_js")
     fmts = [n for n in hir.walk(pj.body) if n.get("exp") and (n.get("macro") or "").endswith("format")]
